@@ -1,7 +1,8 @@
 #!/usr/bin/env python3
 """Record the inventory of property theorems: lean/OBLIGATIONS.json lists, per property, the theorems of
 ModbusProofs/Properties/<id>.lean as the audit (lake env lean ModbusProofs/Audit.lean) sees them now.
-`./check run` requires every listed theorem to be present and free of disallowed axioms, so a theorem that is
+`./check run` requires every listed theorem to be present, to have the recorded statement (structural hash of its
+type) and to be free of disallowed axioms, so a theorem that is
 dropped or renamed while a proof is being repaired does not go unnoticed. Run after adding theorems."""
 import json, os, subprocess, sys
 ROOT = os.path.dirname(os.path.dirname(os.path.abspath(__file__)))
@@ -15,8 +16,7 @@ out = {}
 for t in data["theorems"]:
     if t["name"].endswith((".inj", ".injEq", ".sizeOf_spec")):
         continue  # generated with an inductive type, not a statement of this project
-    out.setdefault(t["module"].split(".")[-1], []).append(t["name"])
-for k in out:
-    out[k].sort()
+    # name -> structural hash of the statement (a statement that is weakened while a proof is repaired changes it)
+    out.setdefault(t["module"].split(".")[-1], {})[t["name"]] = t.get("stmt", "")
 json.dump(out, open(os.path.join(LEAN, "OBLIGATIONS.json"), "w"), indent=1, sort_keys=True)
 print({k: len(v) for k, v in sorted(out.items())})
